@@ -171,7 +171,9 @@ func (fr *Frame) instr(in ssa.Instruction) {
 			fr.callOrd[short]++
 			fr.curQual = calleeQual(name)
 			fr.countCall(short)
-			fr.countCall(fr.curQual)
+			if fr.curQual != short {
+				fr.countCall(fr.curQual) // a package-level function has no qualified name of its own: count it once
+			}
 			fr.siteClauses(short, fr.callOrd[short], "before", args, f, Val{}, x.Pos())
 		}
 	case *ssa.Defer:
